@@ -14,7 +14,7 @@ for world in reg iso join radio plan adr; do
   run() { # parts label
     local parts=$1 label=$2 per=$((K/$1))
     for ((p=0;p<parts;p++)); do
-      ( "$W" -world $world -from $((BASE+p*per)) -count $per 2>"$T/$world.$label.$p.err" | grep -v '"summary":true' > "$T/$world.$label.$p.out" ) &
+      ( "$W" -world $world -scale ${VERIF_DET_SCALE:-1} -from $((BASE+p*per)) -count $per 2>"$T/$world.$label.$p.err" | grep -v '"summary":true' > "$T/$world.$label.$p.out" ) &
       if (( (p+1) % 16 == 0 )); then wait; fi
     done; wait
     cat $(for ((p=0;p<parts;p++)); do echo "$T/$world.$label.$p.out"; done) | python3 -c "
